@@ -398,6 +398,19 @@ pub fn rename_variants(spec: &SysSpec, full: bool) -> Vec<SysSpec> {
     let syms: Vec<String> = spec.inputs.iter().map(|(n, _)| n.clone()).chain(spec.states.iter().map(|s| s.name.clone())).collect();
     let mut out = vec![spec.clone()];
     let pre = ["_input_", "_state_"];
+    // look-alikes: names that contain the prefixes without starting with them (user names, must stay), and
+    // names that start with them without the usual `_<n>` suffix (anonymous by the stated rule)
+    for (i, (a, _)) in spec.inputs.iter().enumerate() {
+        let alikes: &[&str] = if full { &["next_state", "data_input_valid", "x_input_0", "_inp", "input_0", "_Input_0", "_input", "_statex", "_state"] } else { &["next_state", "_input"] };
+        for n in alikes.iter() {
+            if !full && i > 0 {
+                continue;
+            }
+            let mut v = rename_spec(spec, a, n);
+            v.name = format!("{}-alike", spec.name);
+            out.push(v);
+        }
+    }
     if !full {
         // reduced set: each input becomes `_input_<n>`, each state `_state_<n>`, one at a time
         for (i, a) in syms.iter().enumerate() {
@@ -471,7 +484,7 @@ pub fn init_from_input_systems() -> Vec<SysSpec> {
 }
 
 pub fn meta(rep: &mut Report) {
-    rep.rule = "systems = S1 (full pools incl. div/rem) + S3(3) of skeletons K1..K7 (thorough: S1 + S3(4) + S2(32) + S3(5) of K1/K3/K4/K7), hand-built swap/delay/count2/delayin and an array-input system; each with and without names on every intermediate node. simplify_expressions runs on every system; replace_anonymous_inputs_with_zero runs on every renaming variant (0, 1 or 2 of the inputs/states renamed to _input_<n> / _state_<n>, all prefix combinations; in the quick tier the S3 systems get the reduced set: unrenamed, and each single symbol renamed). Oracle: input/state lists (minus the anonymous inputs), no init/next dropped or added, root counts and output names, type of every changed function, equality of every changed function with the original under ALL valuations of states and inputs (removed inputs = 0), no removed or undeclared symbol in the result, surviving names label equivalent functions, lock-step reference simulation over all input sequences of length 3 (quick) / 4 (thorough) from all initial states. evaluations = transformation calls; distinct_nontrivial = distinct (system, naming, pass) cases in which at least one init/next/output/bad/constraint expression changed".into();
+    rep.rule = "systems = S1 (full pools incl. div/rem) + S3(3) of skeletons K1..K7 (thorough: S1 + S3(4) + S2(32) + S3(5) of K1/K3/K4/K7), hand-built swap/delay/count2/delayin and an array-input system; each with and without names on every intermediate node. simplify_expressions runs on every system; replace_anonymous_inputs_with_zero runs on every renaming variant (0, 1 or 2 of the inputs/states renamed to _input_<n> / _state_<n>, all prefix combinations, plus look-alike names for every input: `next_state`, `x_input_0`, `data_input_valid`, `_inp`, `input_0`, `_Input_0` (user names) and `_input`, `_state`, `_statex` (anonymous by the prefix rule); in the quick tier the S3 systems get the reduced set: unrenamed, and each single symbol renamed). Oracle: input/state lists (minus the anonymous inputs), no init/next dropped or added, root counts and output names, type of every changed function, equality of every changed function with the original under ALL valuations of states and inputs (removed inputs = 0), no removed or undeclared symbol in the result, surviving names label equivalent functions, lock-step reference simulation over all input sequences of length 3 (quick) / 4 (thorough) from all initial states. evaluations = transformation calls; distinct_nontrivial = distinct (system, naming, pass) cases in which at least one init/next/output/bad/constraint expression changed".into();
     rep.assumptions = vec![
         "an input is anonymous iff its name starts with `_input` or `_state` (the constants of btor2/parse.rs); the pass looks at sys.inputs only, a state with such a name stays".into(),
         "in the skeleton families init expressions read earlier states only; init expressions that read inputs (also anonymous ones, also inputs that nothing else in the system mentions) come from the hand-built initin*/initonly* systems, for which the lock-step simulation is replaced by the function-level comparison".into(),
